@@ -1,5 +1,6 @@
 import Resolvo.CacheModel
 import Resolvo.CacheProofs
+import Resolvo.CacheOwners
 /-!
 # C20 — SolverCache answers are consistent with the provider and stable
 -/
@@ -160,6 +161,12 @@ theorem drop_waiter_keeps_request (U : Universe) (peek : Bool) (st : St) (k m : 
     simp only [step, hk]
   rw [hs]
   exact ⟨rfl, filter_keeps_owner st.slots k n h⟩
+
+/-- **Every history** (any sequence of queries and of futures started, polled, answered and dropped on a fresh cache): at
+    most one `get_candidates` request per package is in flight - every other live future for the package waits for it. -/
+theorem one_request_per_package_in_flight (U : Universe) (peek : Bool) (ops : List Op) (n : Nat) :
+    owners n (run U peek {} ops).1.slots ≤ 1 :=
+  run_ownerUnique U peek ops {} init_ownerUnique n
 
 /-- the hypotheses of the two theorems are met by a state with one request in flight and one future waiting for it -/
 example : let st : St := { slots := [(0, .owner 5 false), (1, .waiter 5 false)] }
